@@ -139,3 +139,158 @@ Print Assumptions C14_wstep_out_prefix.
 Print Assumptions C14_flush_durable_enc_partial.
 Print Assumptions C14_flush_durable_enc_auth_partial.
 Print Assumptions C14_wrun_blocks.
+
+
+(* ====================================================================================
+   END TO END for {no layer, encryption} (ComposeWriterRun.v, ComposeFlush.v): the step
+   that C14_flush_durable_enc_partial left open.  For ANY clean run of the writer model
+   (calls in any order, refused calls included; no finalize, no short source; names valid
+   UTF-8 and sizes < 2^64 as the types guarantee; fewer than 2^64 files):
+     * the block stream is the serialisation of a well-formed block list (wf_blocks) whose
+       data for file id is `appended id`: the concatenation, in call order, of takeN size src
+       over the successful append / add_file calls to that id;
+     * repair, reading the flushed bytes through the fail-safe decryptor
+       (DataEvenUnauthenticated) or directly (no layer), returns Ok, reports exactly the files
+       not yet ended as unfinished, and holds under EVERY name of the writer's table
+       (w_files) exactly `appended id`: nothing appended before the flush is lost;
+     * authenticated mode: exactly the content bytes lying in the first m bytes of the block
+       stream, ew_ctr * CHUNK <= m (all completed chunks; all of chunk 0, D2).
+   Compression remains unmodelled. *)
+From MLA Require Import Repair RepairSpec RepairPure RepairProofs2 RepairProofs5 RepairProofs6 EncAuthFs Run
+  ComposeRdOnly ComposeRepair ComposeWriterRun ComposeFlush.
+
+Theorem C14_clean_run_blocks :
+  forall FNMAX TS TC TA TE H order ops s rs,
+    wrun FNMAX TS TC TA TE H order w_init ops = (s, rs) ->
+    Forall (fun x => clean (fst x) (snd x)) (combine ops rs) ->
+    Forall op_ok ops -> w_next s < 2 ^ 64 ->
+    exists bl, w_out s = body TS TC TA TE bl /\ wf_blocks FNMAX H bl /\ ~ In BEnd bl /\
+      w_files s = name_list (files_of bl) /\
+      forall id, data_of_id (files_of bl) id = appended FNMAX TS TC TA TE H order id w_init ops.
+Proof. exact clean_run_blocks. Qed.
+
+Theorem C14_flush_then_repair_plain :
+  forall FNMAX CACHE : N, FNMAX < 2 ^ 64 -> 0 < CACHE ->
+  forall TS TC TA TE : N,
+    TS <> TC /\ TS <> TA /\ TS <> TE /\ TC <> TA /\ TC <> TE /\ TA <> TE ->
+  forall H : bytes -> bytes, (forall x, len (H x) = 32) ->
+  forall order ops s rs,
+    wrun FNMAX TS TC TA TE H order w_init ops = (s, rs) ->
+    Forall (fun x => clean (fst x) (snd x)) (combine ops rs) ->
+    Forall op_ok ops -> w_next s < 2 ^ 64 ->
+  forall (S : Stream) (I : st S -> N -> Prop) (s0 : st S) (fuel : nat),
+    RdRefines (rd S) (w_out s) I -> I s0 0 -> (N.to_nat (len (w_out s)) < fuel)%nat ->
+    exists bl out obl,
+      w_out s = body TS TC TA TE bl /\ wf_blocks FNMAX H bl /\ w_files s = name_list (files_of bl) /\
+      repair FNMAX CACHE TS TC TA TE H S fuel s0 w_init
+        = Ok (FEofNextBlock, unfinished_of (files_of bl), out) /\
+      good_output FNMAX TS TC TA TE H out obl /\ Forall2 same (files_of bl) (files_of obl) /\
+      forall name id, In (name, id) (w_files s) ->
+        content_of (files_of obl) name = appended FNMAX TS TC TA TE H order id w_init ops.
+Proof. exact flush_then_repair_plain. Qed.
+
+Theorem C14_flush_then_repair_enc :
+  forall FNMAX CACHE : N, FNMAX < 2 ^ 64 -> 0 < CACHE ->
+  forall TS TC TA TE : N,
+    TS <> TC /\ TS <> TA /\ TS <> TE /\ TC <> TA /\ TC <> TE /\ TA <> TE ->
+  forall H : bytes -> bytes, (forall x, len (H x) = 32) ->
+  forall order ops s rs,
+    wrun FNMAX TS TC TA TE H order w_init ops = (s, rs) ->
+    Forall (fun x => clean (fst x) (snd x)) (combine ops rs) ->
+    Forall op_ok ops -> w_next s < 2 ^ 64 ->
+  forall CHUNK TAG CIPHERBUF : N, 0 < CHUNK -> 0 < TAG ->
+  forall ks tagc, (forall i c, len (tagc i c) = TAG) ->
+  forall pieces fuelw es,
+    concat pieces = w_out s ->
+    ew_write_pieces CHUNK CIPHERBUF ks tagc fuelw ew_init pieces = Ok es ->
+    len (w_out s) / CHUNK < 2 ^ 32 -> len (ew_out es) / (CHUNK + TAG) + 2 <= 2 ^ 32 ->
+  forall fuel : nat, (N.to_nat (len (w_out s)) < fuel)%nat ->
+    exists e0 b, fs_open CHUNK TAG ks (Cursor (ew_out es)) 0 = (e0, Ok b) /\
+    exists bl out obl,
+      w_out s = body TS TC TA TE bl /\ wf_blocks FNMAX H bl /\ w_files s = name_list (files_of bl) /\
+      repair FNMAX CACHE TS TC TA TE H (FsEnc CHUNK TAG ks tagc true (Cursor (ew_out es))) fuel e0 w_init
+        = Ok (FEofNextBlock, unfinished_of (files_of bl), out) /\
+      good_output FNMAX TS TC TA TE H out obl /\ Forall2 same (files_of bl) (files_of obl) /\
+      forall name id, In (name, id) (w_files s) ->
+        content_of (files_of obl) name = appended FNMAX TS TC TA TE H order id w_init ops.
+Proof. exact flush_then_repair_enc. Qed.
+
+Theorem C14_flush_then_repair_enc_auth :
+  forall FNMAX CACHE : N, FNMAX < 2 ^ 64 -> 0 < CACHE ->
+  forall TS TC TA TE : N,
+    TS <> TC /\ TS <> TA /\ TS <> TE /\ TC <> TA /\ TC <> TE /\ TA <> TE ->
+  forall H : bytes -> bytes, (forall x, len (H x) = 32) ->
+  forall order ops s rs,
+    wrun FNMAX TS TC TA TE H order w_init ops = (s, rs) ->
+    Forall (fun x => clean (fst x) (snd x)) (combine ops rs) ->
+    Forall op_ok ops -> w_next s < 2 ^ 64 ->
+  forall CHUNK TAG CIPHERBUF : N, 0 < CHUNK -> 0 < TAG ->
+  forall ks tagc, (forall i c, len (tagc i c) = TAG) ->
+  forall pieces fuelw es,
+    concat pieces = w_out s ->
+    ew_write_pieces CHUNK CIPHERBUF ks tagc fuelw ew_init pieces = Ok es ->
+    len (w_out s) / CHUNK < 2 ^ 32 -> len (ew_out es) / (CHUNK + TAG) + 2 <= 2 ^ 32 ->
+  forall fuel : nat, (N.to_nat (len (w_out s)) < fuel)%nat ->
+    exists e0 b, fs_open CHUNK TAG ks (Cursor (ew_out es)) 0 = (e0, Ok b) /\
+    exists m bl status unfinished out obl,
+      ew_ctr es * CHUNK <= m /\ m <= len (w_out s) /\ (ew_ctr es = 0 -> m = len (w_out s)) /\
+      w_out s = body TS TC TA TE bl /\ wf_blocks FNMAX H bl /\ w_files s = name_list (files_of bl) /\
+      repair FNMAX CACHE TS TC TA TE H (FsEnc CHUNK TAG ks tagc false (Cursor (ew_out es))) fuel e0 w_init
+        = Ok (status, unfinished, out) /\
+      good_output FNMAX TS TC TA TE H out obl /\
+      (forall f, In f (files_of bl) -> content_of (files_of obl) (f_name f) = present (f_id f) bl m) /\
+      (forall id, data_of_id (files_of bl) id = appended FNMAX TS TC TA TE H order id w_init ops).
+Proof. exact flush_then_repair_enc_auth. Qed.
+
+(* non-vacuity: the run of C14_example_archive (two files open, 70 + 2 bytes appended, one
+   empty append, flush), CHUNK = 64, TAG = 16, CIPHERBUF = 24, toy cipher *)
+Definition ex_H (x : bytes) : bytes := map (fun i => (len x + 3 * N.of_nat i) mod 256) (seq 0 32).
+Lemma ex_H_len x : len (ex_H x) = 32.
+Proof. unfold ex_H, len. rewrite map_length, seq_length. reflexivity. Qed.
+Definition ex_ops : list wop :=
+  [OStart [97]; OAppend 0 70 (map N.of_nat (seq 0 70)); OStart [98]; OAppend 1 2 [7; 8]; OAppend 0 0 [];
+   OAppend 5 1 [1]; OFlush].
+Definition ex_run := wrun 48 0 1 254 255 ex_H (fun f => f) w_init ex_ops.
+Definition ex_es : ewstate :=
+  match ew_write_pieces 64 24 toy_ks (toy_tag 16) 300 ew_init
+          [takeN 30 (w_out (fst ex_run)); dropN 30 (w_out (fst ex_run))] with
+  | Ok es => es | _ => ew_init end.
+
+Example C14_example_flush_then_repair :
+  exists e0 b out obl,
+    fs_open 64 16 toy_ks (Cursor (ew_out ex_es)) 0 = (e0, Ok b) /\
+    repair 48 4 0 1 254 255 ex_H (FsEnc 64 16 toy_ks (toy_tag 16) true (Cursor (ew_out ex_es))) 300 e0 w_init
+      = Ok (FEofNextBlock, [[97]; [98]], out) /\
+    content_of (files_of obl) [97] = map N.of_nat (seq 0 70) /\
+    content_of (files_of obl) [98] = [7; 8] /\
+    good_output 48 0 1 254 255 ex_H out obl.
+Proof.
+  destruct (C14_flush_then_repair_enc 48 4 ltac:(lia) ltac:(lia) 0 1 254 255
+              ltac:(repeat split; discriminate) ex_H ex_H_len (fun f => f) ex_ops (fst ex_run) (snd ex_run)
+              ltac:(vm_compute; reflexivity)
+              ltac:(vm_compute; repeat constructor; cbn; discriminate)
+              ltac:(repeat constructor; cbn; lia) ltac:(vm_compute; reflexivity)
+              64 16 24 ltac:(lia) ltac:(lia) toy_ks (toy_tag 16) (len_toy_tag 16)
+              [takeN 30 (w_out (fst ex_run)); dropN 30 (w_out (fst ex_run))] 300%nat ex_es
+              ltac:(vm_compute; reflexivity) ltac:(vm_compute; reflexivity)
+              ltac:(vm_compute; reflexivity) ltac:(vm_compute; discriminate) 300%nat ltac:(vm_compute; lia))
+    as (e0 & b & Ho & bl & out & obl & Hout & Hwf & Hfiles & Hr & Hg & Hs & Hc).
+  exists e0, b, out, obl. split; [exact Ho|].
+  assert (Hu : unfinished_of (files_of bl) = [[97]; [98]]).
+  { assert (Hv : match fs_open 64 16 toy_ks (Cursor (ew_out ex_es)) 0 with
+                 | (e0', _) =>
+                   match repair 48 4 0 1 254 255 ex_H (FsEnc 64 16 toy_ks (toy_tag 16) true (Cursor (ew_out ex_es))) 300 e0' w_init with
+                   | Ok (_, u, _) => u = [[97]; [98]] | _ => False end
+                 end) by (vm_compute; reflexivity).
+    rewrite Ho, Hr in Hv. exact Hv. }
+  rewrite Hu in Hr. split; [exact Hr|].
+  split; [|split; [|exact Hg]].
+  - rewrite (Hc [97] 0) by (vm_compute; auto). vm_compute. reflexivity.
+  - rewrite (Hc [98] 1) by (vm_compute; auto). vm_compute. reflexivity.
+Qed.
+
+Print Assumptions C14_clean_run_blocks.
+Print Assumptions C14_flush_then_repair_plain.
+Print Assumptions C14_flush_then_repair_enc.
+Print Assumptions C14_flush_then_repair_enc_auth.
+Print Assumptions C14_example_flush_then_repair.
